@@ -495,6 +495,70 @@ def read (t : Huffman.Table) (bytes : List UInt8) (buffer : Option Nat) : ReadRe
         | .diverge => .diverge
     else .lift (readBody hw.1 hw.2 (bytes.drop HEADER_SIZE) .input [] bytes.length)
 
+/-! ### the same functions with the Huffman decoder as a parameter
+
+`decompress t = decompressWith (Huffman.decompress t)` etc. are theorems (`Tw/Proofs/Packet7Read.lean`); the
+drivers evaluate `readWith (Huffman.decompressFast t)`, which is equal by `Tw.Huffman.decompressFast_eq`. -/
+
+/-- `Packet::decompress_impl` with the Huffman decoder as a parameter (the drivers pass the proven-equal
+`Huffman.decompressFast`, see `readWith_decompress`); into a buffer with `cap` free bytes -/
+def decompressWith (dec : List UInt8 → Nat → Huffman.DecResult) (packet : List UInt8) (cap : Nat) : DecompressResult :=
+  if cap < MAX_PACKETSIZE then .panic "decompress: buffer.remaining() >= MAX_PACKETSIZE"
+  else if ¬ needsDecompression packet then .panic "decompress: needs_decompression(packet)"
+  else if packet.length < HEADER_SIZE then .panic "decompress: packet too short for header"
+  else
+    let token := tok4 (packet.drop 3)
+    let h := (PacketHeader.unpackWarn (packet.getD 0 0).toNat (packet.getD 1 0).toNat
+               (packet.getD 2 0).toNat token).1
+    match PacketHeader.pack { h with flags := h.flags &&& (255 - PACKETFLAG_COMPRESSION) } with
+    | none => .panic "PacketHeader::pack"
+    | some fake =>
+      match bufWrite cap [] (hdrBytes fake token) with
+      | none => .panic "decompress: buffer.write(fake_header).unwrap()"
+      | some b1 =>
+        match dec (packet.drop HEADER_SIZE) (cap - b1.length) with
+        | .ok out => .ok (b1 ++ out)
+        | .capacity => .capacity
+        | .diverge => .diverge
+
+
+/-- `Packet::decompress_if_needed` with the Huffman decoder as a parameter (the drivers pass the proven-equal
+`Huffman.decompressFast`, see `readWith_decompress`); -/
+def decompressIfNeededWith (dec : List UInt8 → Nat → Huffman.DecResult) (packet : List UInt8) (cap : Nat) : DinResult :=
+  if cap < MAX_PACKETSIZE then .panic "decompress_if_needed: buffer.remaining() >= MAX_PACKETSIZE"
+  else if ¬ needsDecompression packet then .ok false []
+  else match decompressWith dec packet cap with
+    | .ok s => .ok true s
+    | .capacity => .err
+    | .panic s => .panic s
+    | .diverge => .diverge
+
+
+/-- `Packet::read_impl` with the Huffman decoder as a parameter (the drivers pass the proven-equal
+`Huffman.decompressFast`, see `readWith_decompress`);. `buffer = some cap`: `Packet::read`; `none`: `read_panic_on_decompression`. -/
+def readWith (dec : List UInt8 → Nat → Huffman.DecResult) (bytes : List UInt8) (buffer : Option Nat) : ReadResult :=
+  if (match buffer with | some cap => decide (cap < MAX_PACKETSIZE) | none => false) then
+    .panic "read_impl: buffer.remaining() >= MAX_PACKETSIZE"
+  else if bytes.length > MAX_PACKETSIZE then .err .tooLong []
+  else if bytes.length < HEADER_SIZE then .err .tooShort []
+  else
+    let hw := PacketHeader.unpackWarn (bytes.getD 0 0).toNat (bytes.getD 1 0).toNat
+                (bytes.getD 2 0).toNat (tok4 (bytes.drop 3))
+    if hw.1.flags &&& PACKETFLAG_CONNLESS ≠ 0 then .lift (readConnless bytes hw.2)
+    else if hw.1.flags &&& PACKETFLAG_COMPRESSION ≠ 0 then
+      match buffer with
+      | none => .panic "read_panic_on_decompression called on compressed packet"
+      | some cap =>
+        match decompressWith dec bytes cap with
+        | .ok s =>
+          if s.length < HEADER_SIZE then .panic "ref_and_rest_from(decompressed).unwrap()"
+          else .lift (readBody hw.1 hw.2 (s.drop HEADER_SIZE) .scratch s bytes.length)
+        | .capacity => .err .compression hw.2
+        | .panic site => .panic site
+        | .diverge => .diverge
+    else .lift (readBody hw.1 hw.2 (bytes.drop HEADER_SIZE) .input [] bytes.length)
+
+
 /-- the byte-slice field of a packet -/
 def Packet.slice : Packet → Option (List UInt8)
   | .connless p _ _ => some p
